@@ -31,8 +31,8 @@ from harness.common import BUILD, PY, REPO, VERIF, Check, Driver, env_child, rep
 # seekable, no tell attribute); one with read only that hands out at most a few bytes per call; the
 # read end of an os.pipe, buffered and raw
 NONSEEK = ["nonseek", "nonseek_noattr", "nonseek_readonly", "pipe", "pipe_raw"]
-SEEKABLE = ["bytesio", "file"]
-MODEL_KIND = {"bytes": "bytes", "bytearray": "bytes", "bytesio": "seek", "file": "seek"}
+SEEKABLE = ["bytesio", "file", "rawfile"]     # rawfile: open(path, "rb", buffering=0), an io.FileIO
+MODEL_KIND = {"bytes": "bytes", "bytearray": "bytes", "bytesio": "seek", "file": "seek", "rawfile": "seek"}
 MODEL_KIND.update({d: "nonseek" for d in NONSEEK})
 STREAM_DELIVERIES = SEEKABLE + NONSEEK
 MAX_SEQ = 9               # Pickled.load calls on one stream in mode "seq" (concatenations have <= 6 parts)
@@ -173,14 +173,16 @@ def deliver(buf, off, delivery, scratch):
         f = io.BytesIO(buf)
         f.seek(off)
         return f, (lambda: (f.tell(), f.read(), f.getvalue() != buf)), (lambda: None)
-    if delivery == "file":
+    if delivery in ("file", "rawfile"):
         path = os.path.join(scratch, "in.pkl")
         with open(path, "wb") as w:
             w.write(buf)
-        f = open(path, "rb")
+        f = open(path, "rb") if delivery == "file" else open(path, "rb", buffering=0)
         f.seek(off)
 
         def probe():
+            if f.closed:
+                return None, b"<the caller's stream was closed>", True
             pos = f.tell()
             rest = f.read()
             with open(path, "rb") as g:
@@ -238,7 +240,7 @@ def observe(case, scratch):
         except Exception as e:
             err = type(e).__name__
         caller, rest, altered = probe()
-        if err in ("OverflowError", "MemoryError") and delivery == "file":
+        if err in ("OverflowError", "MemoryError") and delivery in ("file", "rawfile"):
             # f.read(n) of a real file raises for a huge byte count where BytesIO just returns what is
             # there: does the STOCK tokeniser raise the same on this very stream?  (not fickling's doing,
             # and then there is no reference delimitation of the pickle on this stream type)
